@@ -130,6 +130,12 @@ func Same(a, b Value) bool {
 	return false
 }
 
+// TableProblem is something about a package-level map the table model cannot represent.
+type TableProblem struct {
+	T   *Table
+	Msg string
+}
+
 type Facts struct {
 	Prog     *load.Program
 	Enums    map[*types.Named]*Enum
@@ -139,6 +145,8 @@ type Facts struct {
 	busy     map[*types.Func]bool
 	eff      *Effects
 	Problems []string
+	// TableProblems: what the table model could not represent, per table (Problems holds the same texts)
+	TableProblems []TableProblem
 }
 
 func Build(p *load.Program) *Facts {
@@ -236,9 +244,9 @@ func (f *Facts) collectTables(pk *packages.Package) {
 							f.fillTable(t, cl)
 							continue
 						}
-						f.Problems = append(f.Problems, fmt.Sprintf("%s: map variable %s is not initialised by a composite literal", p(pk, f, name.Pos()), v.Name()))
+						f.problem(t, fmt.Sprintf("%s: map variable %s is not initialised by a composite literal", p(pk, f, name.Pos()), v.Name()))
 					} else {
-						f.Problems = append(f.Problems, fmt.Sprintf("%s: map variable %s has no initialiser (nil map or filled at run time)", p(pk, f, name.Pos()), v.Name()))
+						f.problem(t, fmt.Sprintf("%s: map variable %s has no initialiser (nil map or filled at run time)", p(pk, f, name.Pos()), v.Name()))
 					}
 				}
 			}
@@ -248,18 +256,46 @@ func (f *Facts) collectTables(pk *packages.Package) {
 
 func p(pk *packages.Package, f *Facts, pos token.Pos) string { return f.Prog.Pos(pos) }
 
+func (f *Facts) problem(t *Table, msg string) {
+	f.Problems = append(f.Problems, msg)
+	f.TableProblems = append(f.TableProblems, TableProblem{T: t, Msg: msg})
+}
+
+// Root is the package-level table a (nested) table belongs to.
+func (t *Table) Root() *Table {
+	for t.Parent != nil {
+		t = t.Parent
+	}
+	return t
+}
+
+// IsData: the table's cells (through nested maps) are strings, numbers, booleans or enumeration values - the
+// kind of table the specification's code, weight and name tables are; a map of functions or structs is not.
+func (t *Table) IsData() bool {
+	var elem types.Type = t.Root().Type
+	for {
+		m, ok := elem.Underlying().(*types.Map)
+		if !ok {
+			break
+		}
+		elem = m.Elem()
+	}
+	_, ok := elem.Underlying().(*types.Basic)
+	return ok
+}
+
 func (f *Facts) fillTable(t *Table, cl *ast.CompositeLit) {
 	info := t.Pkg.TypesInfo
 	for _, el := range cl.Elts {
 		kv, ok := el.(*ast.KeyValueExpr)
 		if !ok {
-			f.Problems = append(f.Problems, fmt.Sprintf("%s: table %s has a non key:value element", f.Prog.Pos(el.Pos()), t.Name))
+			f.problem(t, fmt.Sprintf("%s: table %s has a non key:value element", f.Prog.Pos(el.Pos()), t.Name))
 			continue
 		}
 		e := &Entry{KeyExpr: kv.Key, ValExpr: kv.Value, Pos: kv.Pos()}
 		e.Key = f.StaticValue(info, kv.Key)
 		if e.Key.Kind != VConst && e.Key.Kind != VObj {
-			f.Problems = append(f.Problems, fmt.Sprintf("%s: table %s has a key that is neither a constant nor a package-level value", f.Prog.Pos(kv.Key.Pos()), t.Name))
+			f.problem(t, fmt.Sprintf("%s: table %s has a key that is neither a constant nor a package-level value", f.Prog.Pos(kv.Key.Pos()), t.Name))
 		}
 		if sub, ok := ast.Unparen(kv.Value).(*ast.CompositeLit); ok {
 			if mt, ok := info.TypeOf(sub).Underlying().(*types.Map); ok {
@@ -326,12 +362,12 @@ func (f *Facts) resolvePending() {
 			}
 			call, ok := ast.Unparen(e.ValExpr).(*ast.CallExpr)
 			if !ok {
-				f.Problems = append(f.Problems, fmt.Sprintf("%s: table %s: value is not a constant, a map literal or a call", f.Prog.Pos(e.Pos), t.Name))
+				f.problem(t, fmt.Sprintf("%s: table %s: value is not a constant, a map literal or a call", f.Prog.Pos(e.Pos), t.Name))
 				continue
 			}
 			v := f.EvalCallExpr(t.Pkg.TypesInfo, call)
 			if v.Kind != VConst {
-				f.Problems = append(f.Problems, fmt.Sprintf("%s: table %s: call in initialiser could not be summarised (%s)", f.Prog.Pos(e.Pos), t.Name, v.Why))
+				f.problem(t, fmt.Sprintf("%s: table %s: call in initialiser could not be summarised (%s)", f.Prog.Pos(e.Pos), t.Name, v.Why))
 				continue
 			}
 			e.Val = v
